@@ -33,6 +33,16 @@ func walkPairs(exp, got model.V, f func(e, g model.V)) {
 			return
 		}
 		if exp.Unordered {
+			// members from a Go map are aligned by (sanitised) key; when
+			// sanitising makes keys collide the pairs cannot be aligned
+			seen := map[string]bool{}
+			for _, em := range exp.O {
+				k := string(model.SanitizeUTF8(em.Key))
+				if seen[k] {
+					return
+				}
+				seen[k] = true
+			}
 			used := make([]bool, len(got.O))
 			for _, em := range exp.O {
 				for j, gm := range got.O {
